@@ -3,6 +3,7 @@ package main
 import (
 	"go/token"
 	"go/types"
+	"strconv"
 	"strings"
 
 	"golang.org/x/tools/go/ssa"
@@ -218,6 +219,7 @@ func runC18(c *Ctx) {
 	c.ruleAlias = nil
 	c.c18RunsDoNotOverlap()
 	c.c18PiecesAreTheBytesWritten()
+	c.c18CallersLoggersAreLeftOpen()
 	c.rule("M14", "every one-line forwarder of package subprocess (Setup…, Execute…, Output…, New… variants) hands each of its parameters to the call it forwards to, exactly once: the messages, the environment and the user reach the command whichever variant is called", 15)
 	c.forwardersKeepTheirArguments("M14", []string{spPkg}, nil,
 		"called through that variant the subprocess is described with another argument in its place — the failure message replaced by the success message: a child that fails is reported with the text for success, and the failure text is never logged")
@@ -968,5 +970,101 @@ func (c *Ctx) c18PiecesAreTheBytesWritten() {
 	})
 	if n == 0 {
 		c.violate("M13", fname(f)+"/pieces-unmodified", c.pos(f.Pos()), "the stream writer no longer hands anything to the loggers")
+	}
+}
+
+// c18CallersLoggersAreLeftOpen (M16): "every non-empty line the child writes … reaches the output logger". The loggers are
+// the caller's: they outlive the run (a second Output() with the same logger, a string logger read after the call). Package
+// subprocess closes only what it created itself and shares with nobody — never a logger it was handed, nor a combination
+// that contains one (MultipleLogger.Close closes every member): a closed string logger has forgotten what it was told, a
+// closed pipe refuses the next run's lines.
+func (c *Ctx) c18CallersLoggersAreLeftOpen() {
+	c.rule("M16", "package subprocess never calls Close on a logger it was handed, or on a combination that contains one: no Close on a logs.Loggers value derived from a parameter or from a field", 0)
+	n := 0
+	for _, rel := range []string{spPkg} {
+		for _, f := range c.srcFuncs(rel) {
+			if f.Blocks == nil || f.Parent() != nil {
+				continue
+			}
+			withAnon(f, func(h *ssa.Function) {
+				allInstrs(h, func(in ssa.Instruction) {
+					cc := callCommon(in)
+					if cc == nil || !cc.IsInvoke() || cc.Method.Name() != "Close" {
+						return
+					}
+					isLogger := false
+					if it, ok := cc.Value.Type().Underlying().(*types.Interface); ok {
+						for i := 0; i < it.NumMethods(); i++ {
+							if it.Method(i).Name() == "LogError" {
+								isLogger = true // logs.Loggers and the interfaces that extend it
+							}
+						}
+					}
+					if !isLogger {
+						return
+					}
+					n++
+					top := outermost(f)
+					c.FuncsSeen[fname(top)] = true
+					// where the logger comes from, through constructors and captured variables
+					bad := ""
+					seen := map[ssa.Value]bool{}
+					var walk func(v ssa.Value, depth int)
+					walk = func(v ssa.Value, depth int) {
+						if v == nil || seen[v] || depth > 8 {
+							return
+						}
+						seen[v] = true
+						for _, l := range sources(v, deriveOpts{through: func(string) bool { return true }}) {
+							switch x := l.(type) {
+							case *ssa.Parameter:
+								if strings.Contains(x.Type().String(), "/logs.") {
+									bad = "the parameter " + x.Name() + " of " + fname(x.Parent())
+								}
+							case *ssa.UnOp:
+								if fv, ok := x.X.(*ssa.FreeVar); ok {
+									// a captured variable: what the enclosing function stored in it
+									g := fv.Parent()
+									for i, cand := range g.FreeVars {
+										if cand != fv || g.Parent() == nil {
+											continue
+										}
+										allInstrs(g.Parent(), func(j ssa.Instruction) {
+											if mc, ok := j.(*ssa.MakeClosure); ok && mc.Fn == ssa.Value(g) && i < len(mc.Bindings) {
+												if a, ok := mc.Bindings[i].(*ssa.Alloc); ok {
+													for _, sv := range storesToDeep(a) {
+														walk(sv, depth+1)
+													}
+												} else {
+													walk(mc.Bindings[i], depth+1)
+												}
+											}
+										})
+									}
+								} else if _, ok := x.X.(*ssa.FieldAddr); ok {
+									bad = "a field (" + c.pos(x.Pos()) + ")"
+								} else if a, ok := x.X.(*ssa.Alloc); ok {
+									for _, sv := range storesToDeep(a) {
+										walk(sv, depth+1)
+									}
+								}
+							case *ssa.Extract:
+								walk(x.Tuple, depth+1)
+							}
+						}
+					}
+					walk(cc.Value, 0)
+					key := fname(top) + "/closes-a-logger"
+					if n > 1 {
+						key += "#" + strconv.Itoa(n)
+					}
+					c.check(bad == "", "M16", key, c.ipos(in), "the logger closed was created here and contains nothing the caller owns",
+						"the logger closed here contains "+bad+": it belongs to the caller. Closing a combination closes every member — a string logger forgets the lines of the child it has just been given (they reached the logger and are gone again when the call returns), a logger that refuses writes once closed loses every line of the next run")
+				})
+			})
+		}
+	}
+	if n == 0 {
+		c.info("M16", "subprocess/no-logger-is-closed", "-", "package subprocess closes no logger")
 	}
 }
